@@ -65,6 +65,24 @@ def _():
     return _where_symbolic_fold()
 
 
+
+
+
+def _argmin_nullable_mask_unreduced():
+    from . import impl
+    x = ndx.array(shape=("N",), dtype=ndx.nint32)
+    out = ndx.argmin(x, axis=0)
+    m = ndx.build({"x": x}, {"o": out})
+    sess = impl.session(m)
+    res = dict(zip([o.name for o in sess.get_outputs()],
+                   sess.run(None, impl.feed("x", np.ma.masked_array(np.array([3, 1, 2], dtype=np.int32), mask=[False, False, True]), "nint32"))))
+    return res["o_null"].shape != res["o_values"].shape
+
+
+for _p in ("C01", "C06", "C16"):
+    witness(_p, "argm??/*/null-field-shape-differs-from-values")(_argmin_nullable_mask_unreduced)
+
+
 def replay_all(ctx):  # noqa: E302
     for key, fn in W.get(ctx.prop, {}).items():
         try:
@@ -72,5 +90,3 @@ def replay_all(ctx):  # noqa: E302
         except Exception:
             still = True
         ctx.reproduce_known(key, still)
-
-
